@@ -290,4 +290,25 @@ fn run(ctx: &mut Ctx) {
             }
         }
     }
+    // (5) after a LONG history written with parenthesised expressions (700 transactions, 2 100 operators in all): a limit
+    // that is meant per expression must not add up over the file. Every 1- and 2-posting transaction with a parenthesised
+    // posting first, over the reduced alphabet
+    {
+        let mut long: Vec<Txn> = vec![];
+        for _ in 0..700 {
+            let mut a = P::amt("P1", "2", "X");
+            a.spelling = Some("(1 X + 1 X)");
+            let mut b = P::amt("P2", "-2", "X");
+            b.spelling = Some("(0 X - 1 X - 1 X)");
+            long.push(vec![a, b]);
+        }
+        let spelled: Vec<P> = full.iter().filter(|p| p.spelling.is_some()).cloned().collect();
+        ctx.fact("long_history_transactions", long.len() as u64);
+        for a in &spelled {
+            emit(ctx, &precs[0], &long, &[a]);
+            for b in &ah {
+                emit(ctx, &precs[0], &long, &[a, b]);
+            }
+        }
+    }
 }
